@@ -10,8 +10,12 @@ import (
 	"strings"
 	"time"
 
+	"github.com/named-data/ndnd/fw/core"
+	fwmgmt "github.com/named-data/ndnd/fw/mgmt"
 	"github.com/named-data/ndnd/fw/table"
 	enc "github.com/named-data/ndnd/std/encoding"
+	mgmtdef "github.com/named-data/ndnd/std/ndn/mgmt_2022"
+	"github.com/named-data/ndnd/std/utils"
 	"verif/mc/explore"
 	"verif/mc/report"
 )
@@ -20,6 +24,7 @@ type route struct{ face, origin, cost, flags uint64 }
 
 type inst struct {
 	routes map[string][]*route // reference: prefix -> routes (insertion order irrelevant)
+	cmdErr string              // a management command of this step was not answered with 200
 }
 
 type universe struct {
@@ -28,6 +33,9 @@ type universe struct {
 	origins  []uint64
 	costs    []uint64
 	flags    []uint64
+	// mgmt: routes are registered / unregistered by rib/register and rib/unregister commands handed
+	// to the real management module (fw/mgmt/rib.go) as received from the face itself
+	mgmt bool
 }
 
 type sys struct {
@@ -87,6 +95,46 @@ func newSys(u universe, fib string) *sys {
 				for _, c := range u.costs {
 					for _, fl := range u.flags {
 						p, f, o, c, fl := p, f, o, c, fl
+						ref := func(in *inst) {
+							for _, r := range in.routes[p] {
+								if r.face == f && r.origin == o {
+									r.cost, r.flags = c, fl
+									return
+								}
+							}
+							in.routes[p] = append(in.routes[p], &route{f, o, c, fl})
+						}
+						if u.mgmt {
+							// every field explicit; and, where a value equals the documented default
+							// (application origin, cost 0, child-inherit), the field left out
+							for _, explicit := range []bool{true, false} {
+								if !explicit && !(o == 0 || c == 0 || fl == ci) {
+									continue
+								}
+								explicit := explicit
+								tag := ""
+								if !explicit {
+									tag = ",defaults-absent"
+								}
+								add(fmt.Sprintf("Reg(%s,f%d,o%d,c%d,%s%s)", p, f, o, c, flagStr(fl), tag), func(in *inst) {
+									a := &mgmtdef.ControlArgs{Name: nm(p)}
+									if explicit || o != 0 {
+										a.Origin = utils.IdPtr(o)
+									}
+									if explicit || c != 0 {
+										a.Cost = utils.IdPtr(c)
+									}
+									if explicit || fl != ci {
+										a.Flags = utils.IdPtr(fl)
+									}
+									if st, _ := fwmgmt.VerifCommand("rib", "register", a, f); st != 200 {
+										in.cmdErr = fmt.Sprintf("rib/register answered %d", st)
+									}
+									ref(in)
+								})
+							}
+							continue
+						}
 						add(fmt.Sprintf("Reg(%s,f%d,o%d,c%d,%s)", p, f, o, c, flagStr(fl)), func(in *inst) {
 							table.Rib.AddEncRoute(nm(p), &table.Route{FaceID: f, Origin: o, Cost: c, Flags: fl})
 							for _, r := range in.routes[p] {
@@ -107,7 +155,17 @@ func newSys(u universe, fib string) *sys {
 			for _, o := range u.origins {
 				p, f, o := p, f, o
 				add(fmt.Sprintf("Unreg(%s,f%d,o%d)", p, f, o), func(in *inst) {
-					table.Rib.RemoveRouteEnc(nm(p), f, o)
+					if u.mgmt {
+						a := &mgmtdef.ControlArgs{Name: nm(p)}
+						if o != 0 {
+							a.Origin = utils.IdPtr(o)
+						}
+						if st, _ := fwmgmt.VerifCommand("rib", "unregister", a, f); st != 200 {
+							in.cmdErr = fmt.Sprintf("rib/unregister answered %d", st)
+						}
+					} else {
+						table.Rib.RemoveRouteEnc(nm(p), f, o)
+					}
 					rs := in.routes[p]
 					for i, r := range rs {
 						if r.face == f && r.origin == o {
@@ -144,7 +202,16 @@ func newSys(u universe, fib string) *sys {
 	return s
 }
 
+var cfgDone bool
+
 func (s *sys) New() any {
+	if !cfgDone {
+		cfgDone = true
+		c := core.DefaultConfig()
+		c.Core.LogLevel = "FATAL"
+		core.LoadConfig(c, "")
+		core.InitializeLogger("")
+	}
 	if s.fib == "tree" {
 		table.VerifNewFibTree()
 	} else {
@@ -312,8 +379,20 @@ func (s *sys) fibKind() string {
 
 func (s *sys) Apply(i any, op explore.Op) []report.Violation {
 	in := i.(*inst)
+	in.cmdErr = ""
 	s.do[op.Name](in)
-	return s.check(in, op.Name)
+	v := s.check(in, op.Name)
+	if in.cmdErr != "" {
+		v = append(v, report.Violation{Clause: "C06.rib", Key: "management command refused: " + opKindOf(op.Name), Detail: op.Name + ": " + in.cmdErr})
+	}
+	return v
+}
+
+func opKindOf(n string) string {
+	if i := strings.Index(n, "("); i > 0 {
+		return n[:i]
+	}
+	return n
 }
 func (s *sys) Do(i any, op explore.Op) { s.do[op.Name](i.(*inst)) }
 
@@ -352,6 +431,11 @@ var universes = map[string]universe{
 	"chain": {prefixes: []string{"/", "/a", "/a/b", "/a/b/c"}, faces: []uint64{1}, origins: []uint64{0, 128}, costs: []uint64{0, 5}, flags: []uint64{ci, 0, ci | cap_}},
 	// three levels, two faces, capture in the middle
 	"mid": {prefixes: []string{"/a", "/a/b", "/a/b/c"}, faces: []uint64{1, 2}, origins: []uint64{0}, costs: []uint64{1, 5}, flags: []uint64{ci, cap_, 0}},
+	// three faces on two nested prefixes: one update can swap a member of a next-hop set without changing its size
+	// (a capture route displacing an inherited face); distinct costs per flag set so that a stale cost shows
+	"swap": {prefixes: []string{"/a", "/a/b"}, faces: []uint64{1, 2, 3}, origins: []uint64{0}, costs: []uint64{1}, flags: []uint64{ci, cap_, 0}},
+	// the same operations issued as rib/register / rib/unregister commands through the real management module
+	"mgmt": {prefixes: []string{"/a", "/a/b"}, faces: []uint64{1, 2}, origins: []uint64{0, 128}, costs: []uint64{0, 5}, flags: []uint64{0, ci, cap_, ci | cap_}, mgmt: true},
 	// the full alphabet of the design
 	"full": {prefixes: []string{"/", "/a", "/a/b", "/a/b/c", "/a/x"}, faces: []uint64{1, 2}, origins: []uint64{0, 128}, costs: []uint64{1, 5}, flags: []uint64{0, ci, cap_, ci | cap_}},
 }
@@ -373,6 +457,11 @@ func main() {
 			}
 			for _, f := range fibs {
 				c = append(c, explore.Config{Name: "gap " + f, MaxDepth: 64, MaxDev: -1})
+				sd := 4
+				if th {
+					sd = 64
+				}
+				c = append(c, explore.Config{Name: "swap " + f, MaxDepth: sd, MaxDev: -1})
 				d1, d2, d3 := 3, 3, 2
 				if th {
 					d1, d2, d3 = 4, 4, 3
@@ -380,6 +469,7 @@ func main() {
 				c = append(c, explore.Config{Name: "chain " + f, MaxDepth: d1, MaxDev: -1})
 				c = append(c, explore.Config{Name: "mid " + f, MaxDepth: d2, MaxDev: -1})
 				c = append(c, explore.Config{Name: "full " + f, MaxDepth: d3, MaxDev: -1})
+				c = append(c, explore.Config{Name: "mgmt " + f, MaxDepth: d3, MaxDev: -1})
 			}
 			ad := 3
 			if th {
